@@ -446,6 +446,9 @@ func (g *gspec) build() *built {
 				sub("definitions")[slot] = ref
 			case formDependencies:
 				sub("dependencies")[slot] = ref
+				// property dependencies (lists of names) around the schema dependency, whatever the order
+				sub("dependencies")["a-list"] = arr("e0", "e1")
+				sub("dependencies")["z-list"] = arr("e0")
 			case formItems:
 				n["items"] = ref
 			case formItemsTuple:
@@ -571,11 +574,16 @@ func (g *gspec) build() *built {
 			plain := obj("description", "d")
 			if g.Entry == entAll {
 				// the root already reaches N0 through four kinds of element: one operation is enough here
-				return obj(
+				pi := obj(
 					"parameters", arr(bodyParam(from)),
 					"get", obj("parameters", arr(obj("name", "q", "in", "body", "schema", n0(from))),
 						"responses", obj("200", resp(from), "default", plain)),
 				)
+				if from == rootURL {
+					// the shared parameter / response of the root, included by reference
+					pi["post"] = obj("parameters", arr(obj("$ref", "#/parameters/P")), "responses", obj("200", obj("$ref", "#/responses/R")))
+				}
+				return pi
 			}
 			return obj(
 				"parameters", arr(bodyParam(from)),
